@@ -83,7 +83,10 @@ func genConstruct(t *rapid.T, nested bool) *construct {
 	case "directive":
 		c.raw = rapid.SampledFrom([]string{`<!DOCTYPE x>`, `<!ENTITY a "b">`}).Draw(t, "dir")
 	case "text":
-		c.raw = rapid.SampledFrom([]string{`x`, ` y `, `&amp;`, "\n.\n"}).Draw(t, "txt")
+		// (characters that Unicode calls white space but XML does not — NBSP,
+		// NEL, EM SPACE, IDEOGRAPHIC SPACE, also as character references — are
+		// non-whitespace text)
+		c.raw = rapid.SampledFrom([]string{`x`, ` y `, `&amp;`, "\n.\n", "\u00a0", " \n\u00a0 \t ", "\u2003", "\u3000", "\u0085", "&#160;", " &#x2003; ", "\u200b", "\ufeff"}).Draw(t, "txt")
 	case "strayend":
 		c.raw = `</stream:error>`
 	case "malformed":
